@@ -459,6 +459,12 @@ func (s *Sched) loop() {
 	stepNo := 0
 	for {
 		synctest.Wait()
+		if stepNo >= s.maxSteps {
+			// step budget exhausted; checked here, where every thread is parked: returning
+			// right after a grant would let the granted thread run on without a scheduler
+			s.out.Horizon = true
+			return
+		}
 		s.mu.Lock()
 		s.nameArrivals()
 		// drop threads whose goroutine finished without telling us (sctp goroutines)
@@ -603,10 +609,6 @@ func (s *Sched) loop() {
 			s.envSinceSuspend++
 		}
 		a.Run()
-		if stepNo >= s.maxSteps {
-			s.out.Horizon = true
-			return
-		}
 	}
 }
 
